@@ -670,9 +670,9 @@ PROPS['C19'] = dict(
 # ---------------------------------------------------------------- C20
 def c20_jobs(tier):
     return [
-        Job('tsan', 'c20', 'threads', q(tier, 160, 20000), flavour='tsan', workers=4, timeout=q(tier, 900, 7200)),
-        Job('stress-O2', 'c20', 'threads', q(tier, 1600, 200000), flavour='plain', workers=4, timeout=q(tier, 900, 7200)),
-        Job('tsan-small', 'c20', 'threads', q(tier, 80, 10000), flavour='tsan', workers=4, defines={'ARDUINOJSON_SLOT_ID_SIZE': 1, 'ARDUINOJSON_POOL_CAPACITY': 8, 'ARDUINOJSON_USE_DOUBLE': 0, 'ARDUINOJSON_ENABLE_COMMENTS': 1}, timeout=q(tier, 900, 7200)),
+        Job('tsan', 'c20', 'threads', q(tier, 160, 8000), flavour='tsan', workers=4, timeout=q(tier, 900, 7200)),
+        Job('stress-O2', 'c20', 'threads', q(tier, 1600, 80000), flavour='plain', workers=4, timeout=q(tier, 900, 7200)),
+        Job('tsan-small', 'c20', 'threads', q(tier, 80, 4000), flavour='tsan', workers=4, defines={'ARDUINOJSON_SLOT_ID_SIZE': 1, 'ARDUINOJSON_POOL_CAPACITY': 8, 'ARDUINOJSON_USE_DOUBLE': 0, 'ARDUINOJSON_ENABLE_COMMENTS': 1}, timeout=q(tier, 900, 7200)),
     ]
 
 
